@@ -3,6 +3,7 @@ package encrypted_leaseset
 
 import (
 	"github.com/go-i2p/common/key_certificate"
+	"github.com/go-i2p/common/offline_signature"
 	"github.com/go-i2p/crypto/types"
 	"github.com/samber/oops"
 )
@@ -49,6 +50,14 @@ func (els *EncryptedLeaseSet) Verify() error {
 // present, otherwise constructs a key from sigType + blindedPublicKey.
 func (els *EncryptedLeaseSet) signingPublicKeyForVerification() (types.SigningPublicKey, error) {
 	if els.HasOfflineKeys() && els.offlineSignature != nil {
+		// The transient key only counts when the identity's own key authorised it.
+		identityKey, err := key_certificate.ConstructSigningPublicKeyByType(els.blindedPublicKey, int(els.sigType))
+		if err != nil {
+			return nil, oops.Errorf("failed to get the identity's signing public key: %w", err)
+		}
+		if err := requireAuthorisedTransientKey(els.offlineSignature, identityKey); err != nil {
+			return nil, err
+		}
 		transientKeyBytes := els.offlineSignature.TransientPublicKey()
 		transientSigType := els.offlineSignature.TransientSigType()
 		spk, err := key_certificate.ConstructSigningPublicKeyByType(
@@ -66,4 +75,18 @@ func (els *EncryptedLeaseSet) signingPublicKeyForVerification() (types.SigningPu
 		return nil, oops.Errorf("failed to construct blinded signing public key: %w", err)
 	}
 	return spk, nil
+}
+
+// requireAuthorisedTransientKey checks that the offline block (expires, transient type,
+// transient key) carries a valid signature by the identity's own signing key. Without this a
+// structure signed by any transient key accompanied by a meaningless offline signature verified.
+func requireAuthorisedTransientKey(o *offline_signature.OfflineSignature, identityKey types.SigningPublicKey) error {
+	verifier, err := identityKey.NewVerifier()
+	if err != nil {
+		return oops.Errorf("failed to create verifier for the offline signature: %w", err)
+	}
+	if err := verifier.Verify(o.SignedData(), o.Signature()); err != nil {
+		return oops.Errorf("offline signature is not valid under the identity's signing key: %w", err)
+	}
+	return nil
 }
